@@ -172,6 +172,11 @@ def classify_action(stmts, L, R, rule, mod):
         if 'timedelta(milliseconds=1)' in txt:
             return ('dtminus',)
         return ('dtminus-unit', 'no total_seconds() * 1000')
+    wrapped = [n for n in ast.walk(e) if isinstance(n, ast.BinOp) and isinstance(n.op, ast.Sub)
+               and f'value_normalize_datetime({L})' in norm(n.left) + norm(n.right) and f'value_normalize_datetime({R})' in norm(n.left) + norm(n.right)]
+    if wrapped:
+        return ('dtminus-altered', f'{norm(wrapped[0])[:90]}: the normalised operands are converted again before subtracting (datetime + number is naive local arithmetic, so (d + n) - d != n '
+                                   f'across a DST change)')
     raw = [n for n in ast.walk(e) if isinstance(n, ast.BinOp) and isinstance(n.op, ast.Sub) and {norm(n.left), norm(n.right)} == {L, R}]
     if raw and '.total_seconds' in txt:
         return ('dtminus-unnormalised',)
